@@ -130,6 +130,9 @@ def run_ops(path, ops, killer):
         sqlite3.connect = real
 
 
+RETRIEVAL_BOUNDS = [(-I63, I63 - 1), ("9", "10"), ("8", "12"), ("95", "105"), ("1", "1000"), (9, "11"), ("-5", "5")]
+
+
 def read_state(path):
     """what a fresh Journaler sees: canonical replies for restart, sessions, col of every pair, getall"""
     from asyncfix.journaler import Journaler
@@ -142,12 +145,30 @@ def read_state(path):
     rows = j.get_all_msgs()
     lines.append("jrn.getall - -")
     out.append("r " + ",".join(f"{a}:{C.hx(m)}:{d}:{s}" for a, m, d, s in rows) + " tx=0")
+    from asyncfix.message import MessageDirection as D
+
+    retrieved = []
+    have = {(s, d) for a, m, d, s in rows}
     for (t, s) in ses:
         h = j.create_or_load(t, s)
         lines.append(f"jrn.col {C.hx(t)} {C.hx(s)}")
         out.append("h " + c13.hstr(h) + " tx=1")
+        # "still retrievable": range queries with int and with str bounds (the documented int | str), also where the
+        # text order of the bounds is the reverse of their numeric order
+        for d in (0, 1):
+            if (h.key, d) not in have:
+                continue
+            for lo, hi in RETRIEVAL_BOUNDS:
+                lines.append(f"jrn.rec {h.key} {'out' if d == 1 else 'in'} {c13.btok(lo)} {c13.btok(hi)}")
+                try:
+                    got = j.recover_messages(h, D.OUTBOUND if d == 1 else D.INBOUND, lo, hi)
+                    out.append("m " + ",".join(C.hx(m) for m in got) + " tx=1")
+                    retrieved.append([h.key, d, lo, hi, [m.hex() for m in got]])
+                except Exception as e:  # noqa
+                    out.append("e " + c13.exc_kind(e) + " tx=1")
+                    retrieved.append([h.key, d, lo, hi, f"{type(e).__name__}: {e}"])
     state = {"counters": {f"{v.key}": [v.next_num_out, v.next_num_in] for v in ses.values()},
-             "rows": sorted((s, d, a, m.hex()) for a, m, d, s in rows)}
+             "rows": sorted((s, d, a, m.hex()) for a, m, d, s in rows), "retrieved": retrieved}
     del j
     return lines, out, state
 
@@ -178,8 +199,9 @@ def dry_run(d, ops, snap=False):
     im, lines, out, cum = run_ops(path, ops, killer)
     if snap:
         killer.snap()  # after the last call
+    fired = list(im.fired)
     im.close()
-    return {"lines": lines, "out": out, "cum": cum}
+    return {"lines": lines, "out": out, "cum": cum, "faults": fired}
 
 
 def observe(path, k, mode, code):
@@ -466,7 +488,7 @@ def normal_exit_case(ops):
 # ----------------------------------------------------------------------------------------------
 # generators
 # ----------------------------------------------------------------------------------------------
-def gen_ops(rng, maxlen, allow_half=False):
+def gen_ops(rng, maxlen, allow_half=False, allow_limit=False):
     pairs = [("T", "S"), ("S", "T"), rng.choice(c13.PAIRS[2:])]
     ops = [["col"] + list(rng.choice(pairs[:2]))]
     if rng.random() < 0.6:
@@ -474,9 +496,16 @@ def gen_ops(rng, maxlen, allow_half=False):
         ops.append(["col"] + list(rng.choice([p for p in pairs if list(p) != ops[0][1:]])))
     st = {"desc": rng.choice([9, 2**31 + 4, 2**62 + 4])}
     stored = []
+    limit = allow_limit and rng.random() < 0.2
+    if limit:
+        ops.append(["limit", 1500])     # real DataError for frames above it (implementation-only sequences)
     n = rng.randint(len(ops), maxlen + len(ops) - 1)
     while len(ops) < n:
         v = rng.random()
+        if rng.random() < 0.15:
+            # collaborator fault: the j-th execute()/commit() of the next call raises an sqlite3 error, once
+            ops.append(["fault", rng.choice([0, 0, 1, 1, 2, 3]), rng.choice(c13.FAULT_KINDS)])
+            n += 1
         if v < 0.15:
             ops.append(["col"] + list(rng.choice(pairs)))
         elif v < 0.65:
@@ -488,10 +517,13 @@ def gen_ops(rng, maxlen, allow_half=False):
             if w < 0.3:
                 ops.append(["persist", ref, d, c13.frame(rng, rng.choice(c13.BAD_NUM)).hex(), None])
                 continue
-            num = c13.pick_num(rng, st)
+            num = rng.choice(c13.DIGIT_EDGES) if rng.random() < 0.3 else c13.pick_num(rng, st)
             while not (-I63 <= num < I63):
                 num = c13.pick_num(rng, st)
-            op = ["persist", ref, d, c13.frame(rng, c13.num_text(rng, num)).hex(), num]
+            content = c13.frame_content(rng)
+            if limit and rng.random() < 0.5:
+                content[1].add("large")
+            op = ["persist", ref, d, c13.frame(rng, c13.num_text(rng, num), content=content).hex(), num]
             stored.append(op)
             ops.append(op)
         elif v < 0.9:
@@ -682,24 +714,52 @@ def correspondence(ctx):
 # ----------------------------------------------------------------------------------------------
 # oracle (implementation + pure-Python reference only)
 # ----------------------------------------------------------------------------------------------
-def ref_states(ops, lines):
-    """reference states after each completed op: list of (counters {key: [out,in]}, rows {(sid,dir,seq): hex}).
-    Uses the resolved handle values recorded in the lines (K O I) and the intended numbers carried by the ops."""
+FAULT_REPLY = ("e Operational", "e Data")
+
+
+def raised_fault(reply):
+    """did this call raise a storage error (injected fault / SQLite's own DataError)?"""
+    return reply is not None and (reply.startswith(FAULT_REPLY) or (
+        reply.startswith("s ") and reply.split(" ")[2] in ("Operational", "Data")))
+
+
+METHOD = {"col": "create_or_load", "persist": "persist_msg", "set": "set_seq_num", "rec": "recover_messages",
+          "rec1": "recover_msg", "getall": "get_all_msgs", "sessions": "sessions"}
+
+
+def ref_states(ops, lines, out=None, fired=()):
+    """reference states after each completed op: list of (counters {key: [out,in]}, rows {(sid,dir,seq): hex}), and the
+    calls that failed because a statement raised a storage error: [(op index, method, SQL verb)].
+    Uses the resolved handle values recorded in the lines (K O I), the intended numbers carried by the ops, and – only
+    to know WHETHER a call raised a storage error – the replies of the no-crash run.  Clause for such a call: all or
+    nothing, i.e. nothing (it raised)."""
     counters, rows, ids = {}, {}, {}
     states = [({}, {})]
+    failed = []
+    verb = {li: w for li, w in fired}
     li = 1
-    for op in ops:
+    for oi, op0 in enumerate(ops):
+        op = list(c13.conv_of(op0)[1])
         line = lines[li].split(" ") if li < len(lines) else None
+        reply = out[li] if out is not None and li < len(out) else None
         k = op[0]
-        if k == "col":
+        bad = raised_fault(reply) and k not in ("fault", "limit", "fab")
+        if bad:
+            failed.append((oi, METHOD.get(k, k), verb.get(li, "oversized")))
+        if k == "limit":
+            states.append(({a: list(b) for a, b in counters.items()}, dict(rows)))
+            continue
+        if k == "fault":
+            li += 1
+        elif k == "col":
             key = (op[1], op[2])
-            if key not in ids:
+            if key not in ids and not bad:
                 ids[key] = len(ids) + 1
                 counters[str(ids[key])] = [1, 1]
             li += 1
         elif k == "persist":
             K, d, num = int(line[1]), op[2], op[4]
-            if num is not None and -I63 <= K < I63 and (K, d, num) not in rows:
+            if not bad and num is not None and -I63 <= K < I63 and (K, d, num) not in rows:
                 rows[(K, d, num)] = op[3]
                 if str(K) in counters:
                     counters[str(K)][0 if d == 1 else 1] = num + 1
@@ -710,9 +770,9 @@ def ref_states(ops, lines):
             i = I if op[3] is None else op[3]
             ok = not ((op[2] is not None and o <= 0) or (op[3] is not None and i <= 0))
             fits = lambda x: -I63 <= x < I63  # noqa
-            if ok and fits(o - 1) and fits(i - 1) and fits(K) and fits(o) and fits(i):
+            if not bad and ok and fits(o - 1) and fits(i - 1) and fits(K) and fits(o) and fits(i):
                 # property: a renumbering that returns is applied entirely; one that raises (a number that SQLite
-                # cannot hold) must leave nothing behind
+                # cannot hold, a failing statement) must leave nothing behind
                 if str(K) in counters:
                     counters[str(K)] = [o, i]
                 for key in [key for key in rows if key[0] == K and key[2] >= (o if key[1] == 1 else i)]:
@@ -721,7 +781,7 @@ def ref_states(ops, lines):
         elif k in ("rec", "rec1", "getall", "sessions"):
             li += 1
         states.append(({a: list(b) for a, b in counters.items()}, dict(rows)))
-    return states
+    return states, failed
 
 
 def check_case(r):
@@ -729,11 +789,21 @@ def check_case(r):
     ops, dry = r["ops"], r["dry"]
     lines, cum = dry["lines"], dry["cum"]
     half = any(is_half(l) for l in lines)
-    states = ref_states(ops, lines)
+    states, failed = ref_states(ops, lines, dry.get("out"), dry.get("faults", ()))
     fails = []
+    plain = [c13.conv_of(o)[1] for o in ops]
 
-    def sig(s):
-        return "C08-set-seq-num-overflow-half-applied" if half else s
+    def sig(s, done=None):
+        if half:
+            return "C08-set-seq-num-overflow-half-applied"
+        # input class: a call that failed because a statement raised a storage error had returned before the
+        # crash / close -> <method>:<statement>:<clause>:<immediately | after-later-call>
+        prior = [f for f in failed if done is not None and f[0] < done]
+        if prior:
+            oi, method, verb = prior[-1]
+            when = "immediately" if all(plain[x][0] in ("fault", "limit") for x in range(oi + 1, done)) else "after-later-call"
+            return f"C08-fault:{method}:{verb}:{s[4:]}:{when}"
+        return s
 
     for c in r["results"]:
         inp = {"ops": ops, "k": c["k"], "mode": c["mode"]}
@@ -742,6 +812,17 @@ def check_case(r):
                           "observed": c["err"]})
             continue
         obs = (c["state"]["counters"], {(s, d, a): m for s, d, a, m in c["state"]["rows"]})
+        # every stored message is still retrievable byte for byte: the range queries (int and str bounds) return
+        # exactly the stored rows whose number lies numerically within the bounds
+        for sid, d, lo, hi, got in c["state"].get("retrieved", []):
+            lov, hiv = c13.bound_value(lo), c13.bound_value(hi)
+            want = [m for (a, m) in sorted((a, m) for (s_, d_, a), m in obs[1].items() if s_ == sid and d_ == d and lov <= a <= hiv)]
+            if got != want:
+                fails.append({"signature": "C08-stored-message-not-retrievable",
+                              "what": "after reopening, a range query does not return the stored messages within its bounds",
+                              "input": dict(inp, query=[sid, d, lo, hi]), "expected": len(want),
+                              "observed": got if isinstance(got, str) else len(got)})
+                break
         if c["k"] is None:
             done = len(ops)
             allowed = [states[done]]
@@ -757,14 +838,13 @@ def check_case(r):
         what, s = "the reopened file is not at a boundary between completed operations", "C08-state-not-at-op-boundary"
         if c["k"] is None:
             what, s = "closing the journal normally lost or changed data", "C08-close-loses-data"
-        elif done >= 1 and obs == states[done - 1] and ops[done - 1][0] == "set":
+        elif done >= 1 and obs == states[done - 1] and plain[done - 1][0] == "set":
             what, s = "a completed set/reset of the sequence numbers was lost", "C08-completed-set-lost"
-        elif done >= 1 and obs == states[done - 1] and ops[done - 1][0] == "persist":
+        elif done >= 1 and obs == states[done - 1] and plain[done - 1][0] == "persist":
             what, s = "a message whose store call had returned is gone", "C08-returned-persist-lost"
-        elif done < len(ops) and ops[done][0] == "persist" and cnt == states[done][0] and \
-                any(key not in states[done][1] for key in rows):
+        elif cnt == states[done][0] and any(key not in states[done][1] for key in rows):
             what, s = "a message row exists without its counter update", "C08-row-without-counter"
-        fails.append({"signature": sig(s), "what": what, "input": inp,
+        fails.append({"signature": sig(s, done), "what": what, "input": inp,
                       "expected": [{"counters": a[0], "rows": len(a[1])} for a in allowed],
                       "observed": {"counters": cnt, "rows": sorted(f"{k[0]}/{k[1]}/{k[2]}" for k in rows)}})
     return fails
@@ -777,7 +857,7 @@ def oracle(ctx, disagreements, broken):
             seqs.append(d["input"]["ops"])
     nreal = len(seqs)
     n = ctx.n(40, 300) * (8 if broken else 1)
-    seqs += [gen_ops(ctx.rng, ctx.n(4, 6)) for _ in range(n)] + load_corpus()
+    seqs += [gen_ops(ctx.rng, ctx.n(4, 6), allow_limit=True) for _ in range(n)] + load_corpus()
     # real process exits for the witness / corpus / disagreeing inputs (and a few fresh ones), snapshots for the rest
     nreal += ctx.n(0, 3) * (4 if broken else 1) + (2 if broken else 0)
     res = run_cases([(i, ops, "all") for i, ops in enumerate(seqs[:nreal])])
